@@ -146,7 +146,9 @@ def marginal_check(rng, cls, n):
     if cls in ("grid", "standard") and not any(op[0] in ("cx", "ecr") for op in body):
         return None
     sub = sorted(rng.sample(labels, rng.randint(1, n)))
-    full = body + [["measure", q, i] for i, q in enumerate(labels)]
+    order = labels[:]
+    rng.shuffle(order)                          # measuring all, in any instruction order
+    full = body + [["measure", q, i] for i, q in enumerate(order)]
     part = body + [["measure", q, i] for i, q in enumerate(sub)]
     dp = W.tagged_params(max(labels))
     dp.update(T1=np.ones(max(labels) + 1), T2=np.ones(max(labels) + 1), dt=[1e-9])
@@ -154,7 +156,7 @@ def marginal_check(rng, cls, n):
     b = W.observe_run(cls, part, n, gates=NoiseFreeGates(), device_param=dp, want_result=True)
     if "err" in a or "err" in b:
         return full, part, [f"raised: {a.get('err')} {a.get('msg', '')} / {b.get('err')} {b.get('msg', '')}"]
-    idx = [labels.index(q) for q in sub]
+    idx = [order.index(q) for q in sub]
     marg = {}
     for key, v in a["result"].items():
         k2 = "".join(key[i] for i in idx)
